@@ -29,6 +29,8 @@ def scope(tier, seed):
          'B': '82 representatives of K(<=2) x all 4224 path formulas of size 2 over 4 leaves',
          'N': '82 representatives of K(<=2) x %d path formulas with a 3-ary and/or over {p,q,true}'
               % len(spaces.nary_path((spaces.P, spaces.Q, spaces.T))),
+         'G4': 'total graphs on 4 states (' + ('block %d of 16' % (seed % 16) if tier == 'quick' else 'all 50625')
+               + ') x {q everywhere, q missing once} x {A F G q, A G F q, A(q U not q)}',
          'C': 'representatives of K(3) with labels over {p} (one atom) x all 100 formulas size<=1',
          'D': 'size-3 formulas over {p,q}: block(s) of %d x 82 representatives of K(<=2)' % NB3}
     if tier == 'thorough':
@@ -50,6 +52,8 @@ def plan(tier, seed):
             sh.append(['B', i, b, 2])
     for lo, hi in chunks(82, 2):
         sh.append(['N', lo, hi])
+    for lo, hi in chunks(50625, 1024):
+        sh.append(['G4', lo, hi, (seed % 16) if tier == 'quick' else None])
     n3 = len(_k3_one_atom())
     for lo, hi in chunks(n3, 16):
         sh.append(['C', lo, hi])
@@ -116,6 +120,23 @@ def run_shard(shard, tier, seed, acc):
             check_one(k, Kl, g, acc, audit=(j % 4 == shard[2]))
         acc.sample({'k': k.to_json(), 'formulas': 'A g, g of size 2',
                     'example': spaces.fstr(('A', spaces.path_by_size(2)[777]))})
+        return
+    if kind == 'G4':
+        # total graphs on 4 states, q everywhere / missing in one state, recurrence formulas: the
+        # smallest size with a multi-state SCC plus a later-visited state pointing into it
+        Qq = spaces.Q
+        forms = [('F', ('G', Qq)), ('G', ('F', Qq)), ('U', Qq, ('not', Qq))]
+        for gi, succ in enumerate(itertools.islice(spaces.graphs_total(4), shard[1], shard[2])):
+            if shard[3] is not None and (((shard[1] + gi) * 0x9E3779B1) % (1 << 32)) >> 28 != shard[3]:
+                continue
+            if deadline_passed():
+                acc.capped()
+                return
+            for miss in (None, 0, 1, 2, 3):
+                k = spaces.K(4, succ, [() if i == miss else ('q',) for i in range(4)])
+                Kl = lib.to_kripke(k)
+                for g in (forms if miss is not None else forms[:2]):
+                    check_one(k, Kl, g, acc, audit=False)
         return
     if kind == 'N':
         forms = spaces.nary_path((spaces.P, spaces.Q, spaces.T))
